@@ -43,14 +43,23 @@ class _SurfInv:
     def cases(S):
         yield 'plain', {'self': mk_surface(S.int('s'))}
         yield 'facet', {'self': mk_surface(S.int('s'), 3)}
+        # other references to the same body inverted earlier in the same run must not influence the result
+        yield 'facet-after-another-facet', {'self': Surface(10, 2), 'before': (Surface(10, 1), Surface(-10, 2))}
+        yield 'facet-after-the-whole-body', {'self': Surface(-10, 1), 'before': (Surface(-10),)}
+        yield 'whole-body-after-a-facet', {'self': Surface(10), 'before': (Surface(10, 3),)}
 
     def ghost(S):
         return {'sem': _sem(S)}
 
-    def requires(self, sem):
+    def call(self, before=()):
+        for b in before:
+            b.inverse()
+        return self.inverse()
+
+    def requires(self, sem, before=()):
         return self.surface != 0
 
-    def ensures(result, self, sem):
+    def ensures(result, self, sem, before=()):
         yield 'is-a-surface', isinstance(result, Surface)
         yield 'facet-kept', result.sub == self.sub
         yield 'denotation-negated', iff(den(result, sem), Not(den(self, sem)))
@@ -221,6 +230,15 @@ class _GetAst:
                 if txt not in seen:
                     seen.add(txt)
                     yield {'geom': txt, 'tree': e2}
+        # several facets of one macrobody (and the whole body) under one complement, same and opposite signs
+        f1, f2, f3, body = ('f', 4, 1), ('f', 4, 2), ('f', -4, 3), ('s', 4)
+        for inner in ((':', f1, f2), ('*', f1, f2), ('*', body, f2), (':', f2, body), (':', f1, f3), ('*', ('s', -4), f1)):
+            for e2 in (('~', inner), ('*', ('~', inner), ('s', 1)), (':', ('~', inner), ('~', ('*', f2, f1)))):
+                for style in STYLES[:3]:
+                    txt = _render(e2, style)
+                    if txt not in seen:
+                        seen.add(txt)
+                        yield {'geom': txt, 'tree': e2}
 
     def call(geom, tree):
         from harness import shim
@@ -230,9 +248,13 @@ class _GetAst:
     def ensures(result, geom, tree):
         ok = True
         keys = [(1, 0), (2, 0), (3, 0), (4, 2)]
-        for bits in itertools.product((False, True), repeat=5):
-            sense = dict(zip(keys, bits[:4]))
-            cells = {7: bits[4]}
+        if any(k in geom for k in ('4.1', '4.3', ' 4 ', ':4', '4:')) or geom.strip().endswith('4') or '(4' in geom or '-4' in geom:
+            keys = keys + [(4, 1), (4, 3), (4, 0)]
+        for bits in itertools.product((False, True), repeat=len(keys) + 1):
+            sense = dict(zip(keys, bits[:-1]))
+            for k in ((4, 1), (4, 3), (4, 0)):
+                sense.setdefault(k, False)
+            cells = {7: bits[-1]}
             if _eval_ast(result, sense, cells) != _eval_spec(tree, sense, cells):
                 ok = False
                 break
